@@ -196,7 +196,7 @@ def run(tier, replay=None):
                '%s:%d' % (rel(inits[0]['file']), inits[0]['line']), len(sc) == 1,
                '' if len(sc) == 1 else '%d sort calls found' % len(sc), key='E7b|cubical|%s|one-sort' % unit)
         if len(sc) == 1:
-            args = [ir.show(a) for a in ir.call_args(sc[0])]
+            args = [cmprules.norm_range_arg(ir.show(a)) for a in ir.call_args(sc[0])]
             sorts[unit] = (ir.call_name(sc[0]), args, sc[0])
             cmprules.check_whole_range(chk, 'E7b-sort-arms', sc[0], '%s:%s' % (rel(inits[0]['file']), sc[0].get('l')),
                                        'E7b|cubical|%s|whole-range' % unit, 'initialize_filtration (%s)' % unit)
